@@ -193,12 +193,13 @@ impl Terminal {
     fn handle_key(&mut self, key: Key) -> bool {
         match key {
             Key::Enter => {
-                if self.is_next() && self.buffer.trim().is_empty() {
+                // A focused history entry can be blank too, if the history file was edited
+                self.update_next();
+                if self.buffer.trim().is_empty() {
                     self.buffer.clear();
                     self.visible_cursor = 0;
                     println!();
                 } else {
-                    self.update_next();
                     return true;
                 }
             }
